@@ -12,8 +12,23 @@
      - a cluster with 0 cells:  var/0 is inf or nan, nu is always nan           -> TN_nan
      - a cluster with 1 cell :  var**2/(n**3-n**2) is 0/0 = nan (var = 0) or inf (var <> 0):
                                 nan makes nu_denom fall back to 1.0, inf makes nu = 0
-     - var1/n1 + var2/n2 not > 0 (zero variance in both clusters): denom = 1.0e-10 -> TN_tiny,
-                                and nu_denom = 0 falls back to 1.0, so nu = 0
+     - var1/n1 + var2/n2 not > 0: sqrt gives 0 or NaN, neither is > 0.0, denom = 1.0e-10 -> TN_tiny;
+                                when both variances are EXACTLY 0.0 nu_denom = 0 falls back to 1.0 and
+                                nu = 0; when the sum is NEGATIVE (rounding noise, see var_f) nu > 0
+   THE VARIANCE IS THE FLOAT VARIANCE (audit 3, defect A2).  aggregate_stats computes
+     var = (sumsq - sum**2/max(1,n))/max(1,n-1)
+   in binary64: for a gene that is constant at a non-dyadic value (0.7, 3.3 ...) the stored sum and sumsq
+   give, by cancellation, a tiny non-zero variance of EITHER sign (0.7 x 9 cells: -1.1e-16; 3.3 x 11:
+   +1.4e-15), and everything that follows (which branch of _calculate_tt_nu, nu = 0 or not, t ~ 1e8..1e10)
+   hangs on its sign.  The exact variance of the stored (dyadic) sum and sumsq is a DIFFERENT tiny number,
+   so var_f below performs the four operations with `fl`, round-to-nearest-even to 53 significant bits
+   (binary64 without exponent limits: no overflow / underflow is modelled, statistics are far from both),
+   and nu_num = fl(fl(var1/n1) + fl(var2/n2)) likewise, so that the tests `denom > 0.0` and
+   `nu_denom > 0.0` are decided exactly as the code decides them.  For the same reason the means and their
+   difference are the binary64 ones (mean_f, mdiff_f: sign of t, direction, log2_fold).  The remaining operations (sqrt,
+   quotients of non-cancelling quantities) stay exact rationals: the tie compares them to 1e-12.
+   THE P-VALUE ORACLE IS A FUNCTION OF THE MODELLED STATISTIC (defect A6): t_cdf : tnu -> option Z stands for
+   scipy.stats.t.cdf(t, df=nu); two genes with the same statistic get the same value and nu matters.
    Definitions only. *)
 From Coq Require Import ZArith List Bool Arith.
 From CTM Require Import Base.Sx Model.Holm Model.Penetrance Model.Stats.
@@ -39,13 +54,50 @@ Definition cstats_of (s : summary) : pres (list cstat) :=
      var = (sumsq - sum**2 / max(1, n)) / max(1, n - 1) *)
 Definition aggregate (ng : nat) (leaves : list summary) : summary := sum_rows ng leaves.
 Definition nmax1 (n : Z) : Z := Z.max 1 n.
+(* the EXACT mean of the stored sum (the code's is mean_f below: one rounded division) *)
 Definition mean_r (D : Z) (c : cstat) : rat := (c_sum c, D * nmax1 (c_n c)).
+(* the EXACT variance of the stored numbers - NOT what the code computes when sumsq*n and sum^2 agree to
+   16 digits (see var_f); kept for the contrast (Props/C11.v: c11_welch_constant_gene_noise) *)
 Definition var_r (D : Z) (c : cstat) : rat :=
   (c_sumsq c * nmax1 (c_n c) - c_sum c * c_sum c, nmax1 (c_n c) * nmax1 (c_n c - 1) * (D * D)).
 
-(* mean1 - mean2 *)
-Definition mdiff_r (D : Z) (c1 c2 : cstat) : rat :=
-  (c_sum c1 * nmax1 (c_n c2) - c_sum c2 * nmax1 (c_n c1), D * nmax1 (c_n c1) * nmax1 (c_n c2)).
+(* ---- binary64 rounding (round-to-nearest, ties-to-even) of a rational, 53 significant bits,
+   exponent unbounded.  |x| = a/b: e with 2^52 <= a/(b 2^e) < 2^53 is log2 a - log2 b - 52 or one less;
+   the quotient q and remainder r at that e give the significand q, q+1 (2r > d) or the even one (2r = d).
+   The result is a dyadic rational with denominator 1 or 2^(-e). *)
+Definition fl (x : rat) : rat :=
+  let a := Z.abs (fst x) in
+  let b := snd x in
+  if a =? 0 then (0, 1)
+  else
+    let e0 := Z.log2 a - Z.log2 b - 52 in
+    let q0 := if 0 <=? e0 then a / (b * 2 ^ e0) else (a * 2 ^ (- e0)) / b in
+    let e := if q0 <? 2 ^ 52 then e0 - 1 else e0 in
+    let n := if 0 <=? e then a else a * 2 ^ (- e) in
+    let d := if 0 <=? e then b * 2 ^ e else b in
+    let q := n / d in
+    let r := n mod d in
+    let q' := if 2 * r <? d then q else if d <? 2 * r then q + 1 else if Z.even q then q else q + 1 in
+    let m := Z.sgn (fst x) * q' in
+    if 0 <=? e then (m * 2 ^ e, 1) else (m, 2 ^ (- e)).
+
+Definition radd (x y : rat) : rat := (fst x * snd y + fst y * snd x, snd x * snd y).
+Definition rsub (x y : rat) : rat := (fst x * snd y - fst y * snd x, snd x * snd y).
+Definition rdivz (x : rat) (n : Z) : rat := (fst x, snd x * n).          (* n > 0 *)
+
+(* aggregate_stats' variance AS BINARY64 COMPUTES IT from the stored sum and sumsq (read as exact dyadics):
+     fl( fl( sumsq - fl( fl(sum*sum) / max(1,n) ) ) / max(1,n-1) ) *)
+Definition var_f (D : Z) (c : cstat) : rat :=
+  let s2 := fl (c_sum c * c_sum c, D * D) in
+  let t := fl (rdivz s2 (nmax1 (c_n c))) in
+  let u := fl (rsub (c_sumsq c, D * D) t) in
+  fl (rdivz u (nmax1 (c_n c - 1))).
+
+(* mu = sum / max(1, n) and mean1 - mean2 AS BINARY64 COMPUTES THEM: for a gene with the same non-dyadic constant
+   in both clusters (0.7 in 9 and in 7 cells) the two stored sums give means that differ by a rounding residue,
+   and t, the direction and log2_fold are computed from that residue *)
+Definition mean_f (D : Z) (c : cstat) : rat := fl (mean_r D c).
+Definition mdiff_f (D : Z) (c1 c2 : cstat) : rat := fl (rsub (mean_f D c1) (mean_f D c2)).
 
 (* ---- _calculate_tt_nu ---- *)
 Inductive ext := EFin (n d : Z) | EInf | ENan.
@@ -72,14 +124,15 @@ Definition welch_gene (D : Z) (c1 c2 : cstat) : tnu :=
   let n2 := c_n c2 in
   if (n1 <? 1) || (n2 <? 1) then TN_nan
   else
-    let v1 := var_r D c1 in
-    let v2 := var_r D c2 in
-    (* nu_num = var1/n1 + var2/n2 = An/Ad *)
-    let An := fst v1 * (snd v2 * n2) + fst v2 * (snd v1 * n1) in
-    let Ad := (snd v1 * n1) * (snd v2 * n2) in
+    let v1 := var_f D c1 in
+    let v2 := var_f D c2 in
+    (* nu_num = var1/n1 + var2/n2 = An/Ad, as binary64 computes it *)
+    let A := fl (radd (fl (rdivz v1 n1)) (fl (rdivz v2 n2))) in
+    let An := fst A in
+    let Ad := snd A in
     (* mean1 - mean2 = dn/dd *)
-    let dn := fst (mdiff_r D c1 c2) in
-    let dd := snd (mdiff_r D c1 c2) in
+    let dn := fst (mdiff_f D c1 c2) in
+    let dd := snd (mdiff_f D c1 c2) in
     let nu := match nu_denom (kterm v1 n1) (kterm v2 n2) with
               | None => (0, 1)
               | Some (Kn, Kd) => (An * An * Kd, Ad * Ad * Kn)
@@ -105,7 +158,7 @@ Definition tnu_boring (bn bd : Z) (g : tnu) : bool :=
   | TN_nan => true
   end.
 
-(* the raw p-value of one gene; c is the oracle's value scipy.stats.t.cdf(t, nu) *)
+(* the raw p-value of one gene; c is the oracle's value scipy.stats.t.cdf(t, nu) at THIS statistic *)
 Definition welch_p (H lo hi : Z) (b : option (Z * Z)) (g : tnu) (c : option Z) : Z :=
   match g with
   | TN_nan => p_of_cdf H lo hi None
@@ -124,15 +177,15 @@ Definition qdiff_r (c1 c2 : cstat) : rat :=
   let dif := Z.abs (c_ge1 c1 * nmax1 (c_n c2) - c_ge1 c2 * nmax1 (c_n c1)) in
   let den := nmax1 (c_n c1) * nmax1 (c_n c2) in
   if 0 <? fst q then (dif * snd q, den * fst q) else (dif, den).
-Definition fold_r (D : Z) (c1 c2 : cstat) : rat := (Z.abs (fst (mdiff_r D c1 c2)), snd (mdiff_r D c1 c2)).
+Definition fold_f (D : Z) (c1 c2 : cstat) : rat := (Z.abs (fst (mdiff_f D c1 c2)), snd (mdiff_f D c1 c2)).
 
 (* r as an integer over S; None when S is not a multiple of the denominator *)
 Definition to_S (S : Z) (r : rat) : option Z :=
   if (fst r * S) mod (snd r) =? 0 then Some (fst r * S / snd r) else None.
 
 Definition gene_in (D S : Z) (c1 c2 : cstat) : option (score * Z * Z) :=
-  match to_S S (q1_r c1 c2), to_S S (qdiff_r c1 c2), to_S S (fold_r D c1 c2),
-        to_S S (mean_r D c1), to_S S (mean_r D c2) with
+  match to_S S (q1_r c1 c2), to_S S (qdiff_r c1 c2), to_S S (fold_f D c1 c2),
+        to_S S (mean_f D c1), to_S S (mean_f D c2) with
   | Some a, Some b, Some c, Some m1, Some m2 => Some ((a, b, c), m1, m2)
   | _, _, _, _, _ => None
   end.
@@ -152,30 +205,51 @@ Fixpoint map3 {A B C R} (f : A -> B -> C -> R) (a : list A) (b : list B) (c : li
 
 Definition welch_genes (D : Z) (l1 l2 : list cstat) : list tnu :=
   map (fun cc => welch_gene D (fst cc) (snd cc)) (combine l1 l2).
-Definition welch_pvalues (H lo hi : Z) (b : option (Z * Z)) (tn : list tnu) (cdfs : list (option Z)) : list Z :=
-  map (fun gc => welch_p H lo hi b (fst gc) (snd gc)) (combine tn cdfs).
+(* t_cdf is the oracle scipy.stats.t.cdf as a FUNCTION of the modelled statistic (t and nu) *)
+Definition welch_pvalues (H lo hi : Z) (b : option (Z * Z)) (t_cdf : tnu -> option Z) (tn : list tnu) : list Z :=
+  map (fun g => welch_p H lo hi b g (t_cdf g)) tn.
 
-(* the per-pair input of score_differential_genes, computed from the two rows; cdfs are the
-   oracle's values t.cdf(t_g, nu_g), one per gene *)
-Definition stats_pair (D S H lo hi T : Z) (b : option (Z * Z)) (cdfs : list (option Z)) (s1 s2 : summary)
+(* the per-pair input of score_differential_genes, computed from the two rows *)
+Definition stats_pair (D S H lo hi T : Z) (b : option (Z * Z)) (t_cdf : tnu -> option Z) (s1 s2 : summary)
   : pres pair_in :=
   pbind (cstats_of s1) (fun l1 =>
   pbind (cstats_of s2) (fun l2 =>
-    if negb ((length l1 =? length l2)%nat && (length l1 =? length cdfs)%nat) then PErr E_SHAPE
+    if negb (length l1 =? length l2)%nat then PErr E_SHAPE
     else
       match opt_list (map (fun cc => gene_in D S (fst cc) (snd cc)) (combine l1 l2)) with
       | None => PErr E_INEXACT
       | Some gi =>
           POk (mk_pair_in (s_n s1) (s_n s2) (2 * H) T
-                          (welch_pvalues H lo hi b (welch_genes D l1 l2) cdfs)
+                          (welch_pvalues H lo hi b t_cdf (welch_genes D l1 l2))
                           (map (fun x : score * Z * Z => fst (fst x)) gi)
                           (map (fun x : score * Z * Z => snd (fst x)) gi)
                           (map (fun x : score * Z * Z => snd x) gi))
       end)).
 
 Definition sdg_stats (st : settings) (mask : option (list bool)) (D H lo hi T : Z) (b : option (Z * Z))
-           (cdfs : list (option Z)) (s1 s2 : summary) : pres (list bool * list bool) :=
-  pbind (stats_pair D (st_S st) H lo hi T b cdfs s1 s2) (score_differential_genes st mask).
+           (t_cdf : tnu -> option Z) (s1 s2 : summary) : pres (list bool * list bool) :=
+  pbind (stats_pair D (st_S st) H lo hi T b t_cdf s1 s2) (score_differential_genes st mask).
+
+(* ---- the oracle on the wire: a finite table statistic -> CDF value (None = NaN); the first entry of a
+   statistic counts, so equal statistics cannot get different values.  A statistic without an entry is an
+   error of the caller (E_ORACLE), not a NaN. *)
+Definition E_ORACLE := 12.
+Definition tnu_eqb (g g' : tnu) : bool :=
+  match g, g' with
+  | TN s a d n m, TN s' a' d' n' m' => (s =? s') && (a =? a') && (d =? d') && (n =? n') && (m =? m')
+  | TN_tiny a d n m, TN_tiny a' d' n' m' => (a =? a') && (d =? d') && (n =? n') && (m =? m')
+  | TN_nan, TN_nan => true
+  | _, _ => false
+  end.
+Definition table_cdf (tbl : list (tnu * option Z)) (g : tnu) : option Z :=
+  match find (fun e => tnu_eqb (fst e) g) tbl with Some e => snd e | None => None end.
+Definition oracle_covers (D : Z) (tbl : list (tnu * option Z)) (s1 s2 : summary) : bool :=
+  match cstats_of s1, cstats_of s2 with
+  | POk l1, POk l2 =>
+      forallb (fun g => match g with TN_nan => true | _ => existsb (fun e => tnu_eqb (fst e) g) tbl end)
+              (welch_genes D l1 l2)
+  | _, _ => true                (* the shape error is reported by the computation itself *)
+  end.
 
 (* ------------------------------------------------------------------ *)
 (* wire *)
@@ -185,6 +259,14 @@ Definition of_tnu (g : tnu) : sx :=
   | TN_tiny a b c d => L [I 1; I a; I b; I c; I d]
   | TN_nan => L [I 2]
   end.
+Definition sx_tnu (x : sx) : option tnu :=
+  match x with
+  | L [I 0; I s; I a; I b; I c; I d] => Some (TN s a b c d)
+  | L [I 1; I a; I b; I c; I d] => Some (TN_tiny a b c d)
+  | L [I 2] => Some TN_nan
+  | _ => None
+  end.
+Definition sx_oracle : sx -> option (list (tnu * option Z)) := sx_list (sx_pair sx_tnu (sx_option sx_Z)).
 Definition of_rat (r : rat) : sx := L [I (fst r); I (snd r)].
 
 (* tag 1150: (D s1 s2) -> per gene the Welch statistic and nu *)
@@ -201,7 +283,8 @@ Definition run_welch (x : sx) : sx :=
       end
   | _ => sx_bad
   end.
-(* tag 1151: (D s1 s2) -> per gene mean1 mean2 var1 var2 pij1 pij2 q1 qdiff fold, as rationals *)
+(* tag 1151: (D s1 s2) -> per gene mean1 mean2 var1 var2 pij1 pij2 q1 qdiff fold, as rationals
+   (var1, var2: the binary64 values var_f) *)
 Definition run_stat_scores (x : sx) : sx :=
   match x with
   | L [d; a; b] =>
@@ -211,8 +294,8 @@ Definition run_stat_scores (x : sx) : sx :=
                   (pbind (cstats_of s1) (fun l1 => pbind (cstats_of s2) (fun l2 =>
                      if negb (length l1 =? length l2)%nat then PErr E_SHAPE
                      else POk (map (fun cc : cstat * cstat => let (c1, c2) := cc in
-                                      [mean_r D c1; mean_r D c2; var_r D c1; var_r D c2; pij c1; pij c2;
-                                       q1_r c1 c2; qdiff_r c1 c2; fold_r D c1 c2]) (combine l1 l2)))))
+                                      [mean_f D c1; mean_f D c2; var_f D c1; var_f D c2; pij c1; pij c2;
+                                       q1_r c1 c2; qdiff_r c1 c2; fold_f D c1 c2]) (combine l1 l2)))))
       | _, _, _ => sx_bad
       end
   | _ => sx_bad
@@ -223,29 +306,31 @@ Definition sx_ratopt (x : sx) : option (option (Z * Z)) :=
   | L [I a; I b] => Some (Some (a, b))
   | _ => None
   end.
-(* tag 1152: (settings mask D H lo hi T boring cdfs s1 s2) -> score_differential_genes from the statistics *)
+(* tag 1152: (settings mask D H lo hi T boring oracle-table s1 s2) -> score_differential_genes from the statistics *)
 Definition run_sdg_stats (x : sx) : sx :=
   match x with
   | L [st; m; d; h; lo; hi; t; b; cs; a1; a2] =>
       match sx_settings st, sx_option sx_Lbool m, sx_LZ (L [d; h; lo; hi; t]), sx_ratopt b,
-            sx_list (sx_option sx_Z) cs, sx_summary a1, sx_summary a2 with
+            sx_oracle cs, sx_summary a1, sx_summary a2 with
       | Some st', Some m', Some [D; H; lo'; hi'; T], Some b', Some cs', Some s1, Some s2 =>
+          if negb (oracle_covers D cs' s1 s2) then sx_err E_ORACLE else
           of_pres (fun vu => L [of_Lbool (fst vu); of_Lbool (snd vu)])
-                  (sdg_stats st' m' D H lo' hi' T b' cs' s1 s2)
+                  (sdg_stats st' m' D H lo' hi' T b' (table_cdf cs') s1 s2)
       | _, _, _, _, _, _, _ => sx_bad
       end
   | _ => sx_bad
   end.
-(* tag 1153: (H lo hi boring tnu-free: D s1 s2 cdfs) -> the raw p-values *)
+(* tag 1153: (D H lo hi boring oracle-table s1 s2) -> the raw p-values *)
 Definition run_welch_p (x : sx) : sx :=
   match x with
   | L [d; h; lo; hi; b; cs; a1; a2] =>
-      match sx_LZ (L [d; h; lo; hi]), sx_ratopt b, sx_list (sx_option sx_Z) cs, sx_summary a1, sx_summary a2 with
+      match sx_LZ (L [d; h; lo; hi]), sx_ratopt b, sx_oracle cs, sx_summary a1, sx_summary a2 with
       | Some [D; H; lo'; hi'], Some b', Some cs', Some s1, Some s2 =>
+          if negb (oracle_covers D cs' s1 s2) then sx_err E_ORACLE else
           of_pres of_LZ
                   (pbind (cstats_of s1) (fun l1 => pbind (cstats_of s2) (fun l2 =>
-                     if negb ((length l1 =? length l2)%nat && (length l1 =? length cs')%nat) then PErr E_SHAPE
-                     else POk (welch_pvalues H lo' hi' b' (welch_genes D l1 l2) cs'))))
+                     if negb (length l1 =? length l2)%nat then PErr E_SHAPE
+                     else POk (welch_pvalues H lo' hi' b' (table_cdf cs') (welch_genes D l1 l2)))))
       | _, _, _, _, _ => sx_bad
       end
   | _ => sx_bad
